@@ -94,8 +94,20 @@ fn input_text(c: &C11Case) -> String {
             t.push_str(&format!("{}\t0\t2\t4503599627370496\n", n));
             if c.sweep_threads.is_some() {
                 // a long chromosome: on real runtimes it finishes after the ones queued behind it
-                for i in 0..3000u32 {
+                // (9 000 lines: more than 64 KiB of text, followed by small chromosomes)
+                for i in 0..9000u32 {
                     t.push_str(&format!("{}\t{}\t{}\t0\n", n, 8192 + 2 * i, 8193 + 2 * i));
+                }
+            }
+            continue;
+        }
+        if c.nchrom >= 6 && c.sweep_threads.is_some() && ci == 4 {
+            // a second long chromosome in the middle (both file types): small ones queue behind it
+            for i in 0..9000u32 {
+                if c.bed {
+                    t.push_str(&format!("{}\t{}\t{}\tlong{}\n", n, 2 * i, 2 * i + 3, i));
+                } else {
+                    t.push_str(&format!("{}\t{}\t{}\t{}\n", n, 2 * i, 2 * i + 1, (i % 5) as f32 * 0.5));
                 }
             }
             continue;
@@ -143,7 +155,7 @@ fn execute(c: &C11Case, path: &std::path::Path, yields: &[usize], rt: Rt) -> (Re
 pub fn execute_into(c: &C11Case, path: &std::path::Path, yields: &[usize], rt: Rt, sink: Sink) -> (Result<(), String>, Vec<u8>, Vec<(&'static str, u64)>) {
     let ctl = Arc::new(Ctl { yields: yields.to_vec(), state: Mutex::new((0, vec![])) });
     set_controller(Some(ctl.clone()));
-    let sizes: std::collections::HashMap<String, u32> = names(c.nchrom).into_iter().map(|n| (n, (3 * c.items + 20).max(20000))).collect();
+    let sizes: std::collections::HashMap<String, u32> = names(c.nchrom).into_iter().map(|n| (n, (3 * c.items + 20).max(40000))).collect();
     let runtime = make_runtime(rt);
     let text = input_text(c);
     let res = guarded(|| -> Result<(), String> {
@@ -411,7 +423,7 @@ fn run_cli_sweep(c: &C11Case, out: &mut Outcome) {
     let wd = workdir();
     let dir = wd.path();
     std::fs::write(dir.join("in.txt"), input_text(c)).unwrap();
-    let sizes: String = names(c.nchrom).into_iter().map(|n| format!("{}\t{}\n", n, (3 * c.items + 20).max(20000))).collect();
+    let sizes: String = names(c.nchrom).into_iter().map(|n| format!("{}\t{}\n", n, (3 * c.items + 20).max(40000))).collect();
     std::fs::write(dir.join("sizes"), sizes).unwrap();
     let mut first: Option<(Vec<String>, Vec<u8>)> = None;
     for threads in [1usize, 2, 3, 6, 16] {
